@@ -36,6 +36,12 @@ CHECKS = {
             "Stub learners; banded rewards in the sweep (schedule is reward independent); near-integer values of the N formula accept both neighbours.", "§3 C09"),
     "C10": ("POO driven over recording stub learners with symbolic rewards for 150 rounds (thorough 600) per rhomax in {0.84..0.99} and base name: after every round exactly one learner served the pull and exactly that learner received the reward, learners are only appended, each new learner has nu_max and a rho on the published grid inside (0, rho_max) distinct from all others, Times[i] equals the number of delivered rewards and z3 proves V_reward[i] equals their arithmetic mean; get_last_point is the next proposal of a learner whose mean is >= every other's (all outcomes of the arg-max in the free-reward runs).",
             "Horizon bounded (the inductive step sketched in DESIGN is not discharged); stub learners.", "§3 C10"),
+    "C14": ("Non-interference inside one symbolic path: (determinism) every algorithm is run twice with the same reward terms and the same recorded RNG draws while time/random/os/uuid/datetime/secrets (if imported by a PyXAB module) and the builtins id/hash return fresh arbitrary solver values in each run - z3 proves the two point sequences and recommendations equal; (isolation) two instances on two different symbolic boxes are run interleaved, every interleaving a free choice, and each must reproduce its solo sequence and stay in its own box; (inputs) the user's domain object is compared by identity and term identity before/after every run.",
+            "Hash-ordering of sets/dicts keyed by objects and C-level RNGs other than np.random.* cannot be made symbolic from outside the interpreter. Isolation on RNG-free partitions as the property states.", "§3 C14"),
+    "C15": ("Product run inside one path with the same rewards and RNG draws: (time) rounds labelled 1..T vs arbitrary strictly increasing integer labels (solver variables, stronger than the offsets 0/1/17) for T-HOO, HCT, VHCT, Zooming, POO, GPO, PCT, VPCT, DOO, SOO, SequOOL, VROOM; (queries) 0/1/2 get_last_point() calls inserted before every pull (every combination) for T-HOO, HCT, VHCT, Zooming, POO; z3 proves all outputs equal.",
+            "Bounded rounds; StoSOO and StroquOOL excluded by the property.", "§3 C15"),
+    "C16": ("Product run inside one path: instance A on a symbolic box, instance B on its image under x -> a*x+b with b a solver variable and a in {1,2,1/4,3,1/1000}, same rewards, RNG draws of A replayed for B with uniform draws mapped through the same affine map; z3 proves every point of B and its recommendation is the affine image of A's, for all 14 algorithms and 5 partition classes (DOO default delta: translations only).",
+            "Real arithmetic; the bit-exact clause for power-of-two scalings is covered only by the FP midpoint lemma.", "§3 C16"),
 }
 
 NOT_YET = {}
